@@ -257,7 +257,7 @@ def run_property(pid, tier):
     # 4. known findings: replay each witness on the implementation
     for f in findings:
         still = None
-        if hasattr(mod, "replay_finding"):
+        if hasattr(mod, "replay_finding") and not f.get("witness_py"):
             try:
                 still = mod.replay_finding(f)
             except Exception:
